@@ -45,6 +45,14 @@ def _setup(real: bool, served_head: str = "P"):
     return W, nodeshell
 
 
+def _older_state(W: World, state: Any) -> Any:
+    """An earlier validated state of the node: the same blocks with the other tip as head. The node keeps one as its roll-back
+    point (last_known_valid_coinstate); nothing about admission may be judged against it."""
+    other = W.F if state.current_chain_hash == W.P.hash() else W.P
+    return W.env.cstate.CoinState(state.block_by_hash, state.unspent_transaction_outs_by_hash, state.block_by_height_by_hash,
+                                  state.heads, other.hash())
+
+
 def _valid_at(W: World, state: Any, head_hash: bytes, tx: Any, kinds: List[int]) -> bool:
     """Reference validity of a 1-input pool transaction at a head: output unspent there, owner's signature, value rules."""
     u = state.unspent_transaction_outs_by_hash[head_hash]
@@ -96,6 +104,7 @@ def submit(npool: int, c: int, twin: bool = False, real: bool = False):
         lp = ns.make_node()
         cm = lp.chain_manager
         cm.coinstate = state
+        cm.last_known_valid_coinstate = _older_state(W, state)
         pool = _members(W, npool, pv, [1, 1])
         cm.transaction_pool = list(pool)
         try:
@@ -255,7 +264,7 @@ def resubmission(twin: bool = False, real: bool = False):
         """
         post: _
         """
-        if not (3 <= v0 <= 10 ** 15 and 1 <= ov <= 10 ** 15 and 0 <= scenario <= 1):
+        if not (3 <= v0 <= 10 ** 15 and 1 <= ov <= 10 ** 15 and 0 <= scenario <= 3):
             return True
         if ov > v0 - 1:
             return True
@@ -266,6 +275,7 @@ def resubmission(twin: bool = False, real: bool = False):
         lp = ns.make_node()
         cm = lp.chain_manager
         cm.coinstate = state
+        cm.last_known_valid_coinstate = _older_state(W, state)
         cm.transaction_pool = []
         T = W.make_tx(tok(TX, 42), [(0, 0, 0)], [(ov, 1)], pv, tok(TX, 99), None)
         T2 = W.make_tx(tok(TX, 43), [(0, 0, 0)], [(ov, 2)], pv, tok(TX, 99), None)      # conflicts with T
@@ -277,6 +287,28 @@ def resubmission(twin: bool = False, real: bool = False):
                     return False
                 cm.set_coinstate(state.add_block_no_validation(W.candidate(state, [cb, T], 3000)))
                 again = cm.add_transaction_to_pool(T)
+            elif scenario == 2:
+                # T admitted, the head moves on without touching T (reward-only block), a conflicting T2 is submitted: refused,
+                # T stays
+                if not cm.add_transaction_to_pool(T):
+                    return False
+                cm.set_coinstate(state.add_block_no_validation(W.candidate(state, [cb], 3000)))
+                if len(cm.transaction_pool) != 1 or cm.transaction_pool[0] is not T:
+                    return False
+                again = cm.add_transaction_to_pool(T2)
+                if twin:
+                    return False
+                return (not again) and len(cm.transaction_pool) == 1 and cm.transaction_pool[0] is T
+            elif scenario == 3:
+                # two inputs owned by ONE key over one signed message: the first carries the owner's signature, the second
+                # 64 bytes of nothing - refused; then the honest single-input T is still admitted
+                forged = W.make_tx(tok(TX, 46), [(0, 0, 0), (2, 0, 6)], [(ov, 1)], pv, tok(TX, 99), None)
+                if cm.add_transaction_to_pool(forged) or len(cm.transaction_pool) != 0:
+                    return False
+                ok = cm.add_transaction_to_pool(T)
+                if twin:
+                    return False
+                return bool(ok) and len(cm.transaction_pool) == 1
             else:
                 # T admitted, conflicting T2 refused, T mined, T2 submitted again: a double spend of a mined output
                 if not cm.add_transaction_to_pool(T) or cm.add_transaction_to_pool(T2):
@@ -289,7 +321,7 @@ def resubmission(twin: bool = False, real: bool = False):
             return False
         return (not again) and len(cm.transaction_pool) == 0
 
-    return check_resubmission, {"v0": 10, "ov": 5, "scenario": 0}
+    return check_resubmission, {"v0": 10, "ov": 5, "scenario": 2}
 
 
 def relay(twin: bool = False, real: bool = False):
